@@ -34,6 +34,7 @@ import (
 	execution "github.com/furiko-io/furiko/apis/execution/v1alpha1"
 	"github.com/furiko-io/furiko/pkg/config"
 	"github.com/furiko-io/furiko/pkg/execution/util/cronschedule"
+	timeutil "github.com/furiko-io/furiko/pkg/utils/time"
 )
 
 const (
@@ -224,7 +225,10 @@ func (w *CronWorker) refreshUpdatedJobConfigs(now time.Time) {
 				continue
 			}
 
-			if _, err := w.schedule.Bump(jobConfig, now); err != nil {
+			// Use the current time rather than the reference time of this routine, which
+			// may be outdated by now: the update must never be scheduled for a time before
+			// it was made.
+			if _, err := w.schedule.Bump(jobConfig, timeutil.Max(now, Clock.Now())); err != nil {
 				klog.ErrorS(err, "croncontroller: cannot bump updated job config in heap",
 					"namespace", jobConfig.Namespace,
 					"name", jobConfig.Name,
